@@ -236,6 +236,12 @@ def judge(inst, resp):
     return bad
 
 
+def expected_hex(inst):
+    argv, env, cwd, stdin = inst.expected()
+    return {"argv": [a.hex() for a in argv], "env": [[k.hex(), v.hex()] for k, v in env.items()], "cwd": cwd.hex() if cwd is not None else None,
+            "stdin": [stdin[0], stdin[1].hex()], "made": [[k, p.hex()] for k, p in inst.made]}
+
+
 def real_limit_cases():
     """(name, prog token, token table, calls): the REAL default limits, one boundary at a time."""
     def T(n, nul=False, eq=False):
@@ -391,7 +397,8 @@ def run(tier):
             v.finding(key, "%s [limits %s, scale %d]\ncalls %s on program token %s; model outcome %s\nscript:\n%s" % (
                 desc, inst.plan, inst.S, inst.rec["calls"][:8], inst.rec["prog"], {k: o[k] for k in o if k != "argv"} if len(str(o)) > 600 else o, inst.build()[:1500]),
                 {"limits": inst.plan, "scale": inst.S, "policy": inst.policy(), "calls": inst.rec["calls"][:300], "program_token": inst.rec["prog"],
-                 "model_outcome": o if len(str(o)) < 4000 else o["k"], "script": inst.build()[:20000], "got": {k: resp.get(k) for k in ("st", "ekind", "marker")}})
+                 "model_outcome": o if len(str(o)) < 4000 else o["k"], "script": inst.build()[:20000], "got": {k: resp.get(k) for k in ("st", "ekind", "marker")},
+                 "expected_report": expected_hex(inst) if o["k"] == "spawn" and len(inst.build()) < 20000 else None})
     shutil.rmtree(base, ignore_errors=True)
     if not samples:
         samples.append({"note": "no spawn sample with args and env agreed"})
@@ -408,3 +415,32 @@ def run(tier):
                      "an existing path of exactly 4096 bytes cannot be executed on Linux (PATH_MAX), so the program/cwd limits are crossed at 4097 and exercised at 3000 bytes",
                      "timeouts are scaled to minutes: the child exits at once, so no timeout can fire during a run"]
     return v.finish()
+
+
+def replay(path):
+    """bin/check C15 quick --replay FILE: runs the recorded script under the recorded host policy again."""
+    import json
+    common.build_harness()
+    rp = json.load(open(path))["replay"]
+    exp = rp.get("expected_report")
+    if exp:
+        materialise([(k, bytes.fromhex(p)) for k, p in exp["made"]])
+    side = os.path.join(WORK, "c15_replay_side_%d" % os.getpid())
+    res = runner.run_requests([{"id": 0, "modes": ["run"], "kind": "builder", "src": rp["script"], "policy": rp["policy"], "out": side}], mode="procs", nworkers=1, timeout=120.0)
+    resp = res.get(0, {}).get("run", {"st": None})
+    o = rp["model_outcome"]
+    kind = o if isinstance(o, str) else o["k"]
+    print("model outcome: %s   now: st=%r kind=%r marker=%s" % (o if len(str(o)) < 500 else kind, resp.get("st"), resp.get("ekind"), resp.get("marker")))
+    if kind in ("refuse", "denied"):
+        return 1 if resp.get("marker") or resp.get("ekind") != ("denied" if kind == "denied" else "spec_invalid") else 0
+    rep = resp.get("report")
+    if resp.get("st") != "done" or not rep:
+        return 1
+    if not exp:
+        return 0
+    parent = {k: v for k, v in resp["parent_env"]}
+    parent.update({k: v for k, v in exp["env"]})
+    ok = rep["argv"] == exp["argv"] and dict((k, v) for k, v in rep["env"]) == parent and rep["cwd"] == (exp["cwd"] or resp["parent_cwd"]) \
+        and [rep["stdin_kind"], rep["stdin"]] == exp["stdin"]
+    print("child report %s the model state" % ("equals" if ok else "DIFFERS from"))
+    return 0 if ok else 1
